@@ -68,7 +68,26 @@ pub fn execute_memoized_function<Db: Database>(
         db.get_storage().top_level_calls.push(derived_node_id);
     }
 
-    let (did_recalculate, time_updated) = if let Some((derived_node, revision)) = db
+    let (did_recalculate, time_updated) =
+        verify_or_execute_memoized_function(db, derived_node_id, inner_fn);
+    db.get_storage().register_dependency_in_parent_memoized_fn(
+        NodeKind::Derived(derived_node_id),
+        time_updated,
+    );
+    did_recalculate
+}
+
+/// The part of [`execute_memoized_function`] that is shared with the verification of a
+/// dependency (see [`derived_node_changed_since`]). Verifying a dependency is not a call:
+/// it must neither be recorded as a top-level call (the dependency stack is empty while the
+/// dependencies of a top-level call are verified) nor be registered as a dependency of the
+/// memoized function that happens to be running.
+fn verify_or_execute_memoized_function<Db: Database>(
+    db: &Db,
+    derived_node_id: DerivedNodeId,
+    inner_fn: InnerFn<Db>,
+) -> (DidRecalculate, Epoch) {
+    if let Some((derived_node, revision)) = db
         .get_storage()
         .internal
         .get_derived_node_and_revision(derived_node_id)
@@ -95,12 +114,7 @@ pub fn execute_memoized_function<Db: Database>(
     } else {
         let _create_span = debug_span!("creating_new_derived_node").entered();
         create_derived_node(db, derived_node_id, inner_fn)
-    };
-    db.get_storage().register_dependency_in_parent_memoized_fn(
-        NodeKind::Derived(derived_node_id),
-        time_updated,
-    );
-    did_recalculate
+    }
 }
 
 fn create_derived_node<Db: Database>(
@@ -243,7 +257,7 @@ fn derived_node_changed_since<Db: Database>(
     } else {
         return true;
     };
-    let did_recalculate = execute_memoized_function(db, derived_node_id, inner_fn);
+    let (did_recalculate, _) = verify_or_execute_memoized_function(db, derived_node_id, inner_fn);
     matches!(
         did_recalculate,
         DidRecalculate::Recalculated | DidRecalculate::Error
